@@ -1050,6 +1050,15 @@ static int write_text(void *context, UChar *text, int32_t length, int fold, int 
      */
     assert(*text);
 
+    /*
+     * A carriage return at the very end of the text would combine with the newline written before the closing
+     * delimiter into a single CR LF line terminator, and so be lost.  A carriage return is read back as a newline
+     * in any case, so write that one as a newline: the text then ends with an empty line, as it should.
+     */
+    if ((length > 0) && (text[length - 1] == UCHAR_CR)) {
+        text[length - 1] = UCHAR_NL;
+    }
+
     /* opening delimiter and flags */
     nchars = u_fprintf(CONTEXT_UFILE(context), "\n;%s%s", (prefix ? PREFIX "\\" : ""), (fold ? "\\" : ""));
     if (nchars != expected) {
